@@ -223,9 +223,9 @@ theorem cloneAll_lit : ∀ (ls : List Loc) (acc : List Loc) (s : St), Lit n o0 s
     obtain ⟨o, s1⟩ := r
     cases o <;> simp only [] <;> exact ih _ _ hc
 
-/-- the counting loop's counter object is not a literal -/
-def JobOK (n : Nat) : Job → Prop
-  | .cforL o _ _ => n ≤ o
+/-- (no side condition is left on jobs: the counting loop writes through its counter's Data record, which is checked for constness
+    like any other write; kept as a parameter so that statements need not change) -/
+def JobOK (_n : Nat) : Job → Prop
   | _ => True
 
 end ChaiVerif.Chai
